@@ -518,3 +518,124 @@ package locate
 //@ func (*RegionRequestSender) SendReq
 //@   modifies-also RegionRequestSender.rpcErrAtReturn of s
 //@   postulate snapshot: s.rpcErrAtReturn == s.rpcError
+
+// ---- C10: who may be tried (flag bits of a replica: 1 read time-out, 2 data-not-ready, 4 not-leader, 8 server-busy,
+// 16 suspected-not-leader) ----------------------------------------------------------------------------------------------------
+// The leader is a candidate only while it has attempts left (count and time), has answered neither with a read time-out nor
+// with not-leader, and its store epoch is current; the leader strategy hands out nothing but that leader, and not a leader
+// suspected to have lost leadership.
+//@ func isLeaderCandidate
+//@   prop C10
+//@   may-panic
+//@   inline-callee isExhausted hasFlag isEpochStale
+//@   opaque-callee getLivenessState
+//@   ensures fresh: result ==> leader.attempts < maxReplicaAttempt && leader.attemptedTime < maxReplicaAttemptTime && (leader.flag / 1) % 2 == 0 && (leader.flag / 4) % 2 == 0 && leader.epoch == leader.store.epoch
+//@ func (ReplicaSelectLeaderStrategy) next
+//@   prop C10
+//@   may-panic
+//@   inline-callee hasFlag
+//@   ensures leader: result != nil ==> result == replicas[s.leaderIdx] && (result.flag / 16) % 2 == 0 && result.attempts < maxReplicaAttempt && (result.flag / 4) % 2 == 0
+// A replica is a candidate of the mixed strategy only if its store is reachable with a current epoch and it was not tried yet
+// (a follower that answered data-not-ready may be tried once more), never a follower when only the leader is asked for, and
+// under a busy threshold neither the leader nor a replica that already answered server-busy.
+//@ func (*ReplicaSelectMixedStrategy) isCandidate
+//@   prop C10
+//@   may-panic
+//@   inline-callee isExhausted hasFlag
+//@   opaque-callee EstimatedWaitTime IsSlow
+//@   ensures alive: result ==> !epochStale && liveness != unreachable
+//@   ensures once: result ==> r.attempts < ite((r.flag / 2) % 2 == 1 && !isLeader, 2, 1)
+//@   ensures leaderonly: result && s.leaderOnly ==> isLeader
+//@   ensures busy: result && s.busyThreshold > 0 ==> !isLeader && (r.flag / 8) % 2 == 0
+// The marks the error handlers leave on the replica just tried.
+//@ func (*replicaSelector) onDataIsNotReady
+//@   prop C10
+//@   inline-callee addFlag
+//@   ensures marked: s.target != nil ==> (s.target.flag / 2) % 2 == 1 && s.target.attempts == old(s.target.attempts)
+//@ func (*replicaSelector) onReadReqConfigurableTimeout
+//@   prop C10
+//@   inline-callee addFlag
+//@   ensures marked: result && s.target != nil ==> (s.target.flag / 1) % 2 == 1
+//@   ensures reads: result ==> (req.Type == tikvrpc.CmdGet || req.Type == tikvrpc.CmdBatchGet || req.Type == tikvrpc.CmdScan || req.Type == tikvrpc.CmdCop || req.Type == tikvrpc.CmdBatchCop || req.Type == tikvrpc.CmdCopStream)
+//@   ensures untouched: !result && s.target != nil ==> s.target.flag == old(s.target.flag)
+//@ func isReadReqConfigurableTimeout
+//@   prop C10
+//@   opaque-callee Milliseconds
+//@   ensures reads: result ==> (req.Type == tikvrpc.CmdGet || req.Type == tikvrpc.CmdBatchGet || req.Type == tikvrpc.CmdScan || req.Type == tikvrpc.CmdCop || req.Type == tikvrpc.CmdBatchCop || req.Type == tikvrpc.CmdCopStream)
+// Flashback in progress is retried only for a replica read that went to a follower, and then as a plain leader read.
+//@ func (*replicaSelector) onFlashbackInProgress
+//@   prop C10
+//@   may-panic
+//@   opaque-callee GetLeaderPeerID
+//@   inline-callee SetReplicaReadType IsFollowerRead
+//@   ensures retry: result ==> old(req.ReplicaRead) && s.target != nil && !req.ReplicaRead && req.StaleRead == old(req.StaleRead) && req.BusyThresholdMs == 0 && s.replicaReadType == kv.ReplicaReadLeader
+//@   ensures giveup: !result ==> req.ReplicaRead == old(req.ReplicaRead) && req.StaleRead == old(req.StaleRead) && s.replicaReadType == old(s.replicaReadType)
+// Region-not-found is retried only while the leader has not been tried, and then as a leader read.
+//@ func (*replicaSelector) onRegionNotFound
+//@   prop C10
+//@   may-panic
+//@   inline-callee isExhausted
+//@   opaque-callee getStore InvalidateCachedRegion
+//@   inline-callee SetReplicaReadType IsFollowerRead
+//@   ensures retry: shouldRetry ==> err == nil && s.regionInvalidatedForRetry && (req != nil ==> !req.ReplicaRead) && s.replicaReadType == kv.ReplicaReadLeader
+//@   ensures noerr: err == nil
+// A successful send moves the cached leader only for a request that was neither a stale read nor a replica read.
+//@ func (*replicaSelector) onSendSuccess
+//@   prop C10
+//@   may-panic
+//@   opaque-callee getStore setProxyStoreIdx GetLeaderPeerID
+//@   loop 1 invariant l1: -1 <= rangeindex
+//@   at call(switchWorkLeaderToPeer) assert plain: req != nil && !req.StaleRead && !req.ReplicaRead && arg0 == s.target.peer
+
+// The score of a replica (bits: 1 not attempted, 2 normal peer, 4 prefer leader, 8 label matches, 16 not slow): the
+// "not attempted" bit is set exactly for a replica with no attempt, a follower never gets the prefer-leader bit, a leader
+// gets the normal-peer bit only as the fallback of prefer-leader (slow store) or try-leader (no labels), and with
+// learner-only a follower counts as a normal peer only if it is a learner.
+//@ func (*ReplicaSelectMixedStrategy) calculateScore
+//@   prop C10
+//@   may-panic
+//@   opaque-callee IsStoreMatch IsLabelsMatch IsSlow
+//@   ensures range: 0 <= result && result < 32
+//@   ensures fresh: (result / 1) % 2 == ite(r.attempts == 0, 1, 0)
+//@   ensures follower: !isLeader ==> (result / 4) % 2 == 0 && (result / 2) % 2 == ite(!s.learnerOnly || r.peer.Role == metapb.PeerRole_Learner, 1, 0)
+//@   ensures leader: isLeader && !s.preferLeader && !s.tryLeader ==> (result / 4) % 2 == 0 && (result / 2) % 2 == 0
+// Replica read is allowed only after the leader has been tried and has answered neither with a read time-out nor server-busy.
+//@ func (*ReplicaSelectMixedStrategy) canSendReplicaRead
+//@   prop C10
+//@   may-panic
+//@   inline-callee hasFlag
+//@   ensures result == (selector.replicas[s.leaderIdx].attempts != 0 && (selector.replicas[s.leaderIdx].flag / 1) % 2 == 0 && (selector.replicas[s.leaderIdx].flag / 8) % 2 == 0)
+//@ func hasDeadlineExceededError
+//@   prop C10
+//@   may-panic
+//@   inline-callee hasFlag
+//@   loop 1 invariant none: -1 <= rangeindex && rangeindex < len(replicas) && forall i int :: 0 <= i && i <= rangeindex ==> (replicas[i].flag / 1) % 2 == 0
+//@   ensures found: result ==> exists i int :: 0 <= i && i < len(replicas) && (replicas[i].flag / 1) % 2 == 1
+//@   ensures none: !result ==> forall i int :: 0 <= i && i < len(replicas) ==> (replicas[i].flag / 1) % 2 == 0
+
+// The mixed strategy hands out one of the selector's replicas, and - unless it is the restored suspected leader - one that
+// passed isCandidate in this very round (so: reachable store, current epoch, at most one earlier attempt).
+//@ func (*ReplicaSelectMixedStrategy) next
+//@   prop C10
+//@   may-panic
+//@   inline-callee hasFlag deleteFlag isEpochStale
+//@   opaque-callee getLivenessState getResolveState calculateScore setSyncFlags randIntn invalidateRegion hasDeadlineExceededError isLeaderCandidate WithLabelValues Inc
+//@   loop 1 invariant idx: -1 <= rangeindex && rangeindex < len(replicas) && replicas == selector.replicas
+//@   loop 1 invariant picked: forall j int :: 0 <= j && j < len(maxScoreIdxes) ==> 0 <= maxScoreIdxes[j] && maxScoreIdxes[j] <= rangeindex && replicas[maxScoreIdxes[j]].attempts < 2
+//@   ensures member: result != nil ==> exists i int :: 0 <= i && i < len(selector.replicas) && result == selector.replicas[i]
+
+// Listing the regions of a key range: the walk starts at the range's start key, every region listed is the one LocateKey
+// found for the cursor (so it holds the cursor), the walk ends with the region that holds the end key, and at least one
+// region is listed.
+//@ func (c *RegionCache) ListRegionIDsInKeyRange
+//@   prop C09
+//@   bytes: key
+//@   may-panic
+//@   requires ordered: startKey <= endKey
+//@   loop 1 invariant first: len(regionIDs) == 0 ==> startKey == old(startKey)
+// (progress: with an ordered range every further lookup starts strictly behind the previous cursor - at the end of the
+// region just listed - and not behind the end key)
+//@   loop 1 invariant progress: len(regionIDs) > 0 ==> startKey > old(startKey) && startKey <= endKey
+//@   at call(LocateKey) assert cursor: arg_key == startKey && (len(regionIDs) == 0 ==> startKey == old(startKey))
+//@   at call(Contains) assert listed: len(regionIDs) >= 1 && regionIDs[len(regionIDs)-1] == curRegion.Region.id && locHolds(curRegion, startKey, false) && arg0 == endKey
+//@   ensures some: err == nil ==> len(regionIDs) >= 1
